@@ -76,8 +76,8 @@ class TucanListenerImpl(tucanListener):
         self._parse_sum_formula(ctx)
 
     def enterTuple(self, ctx: tucanParser.TupleContext):
-        index1 = int(ctx.node_index(0).getText())
-        index2 = int(ctx.node_index(1).getText())
+        index1 = _to_int(ctx.node_index(0).getText())
+        index2 = _to_int(ctx.node_index(1).getText())
         if index1 == index2:
             raise TucanParserException(
                 f'Error in tuple "{ctx.getText()}": Self-loops are not allowed.'
@@ -85,9 +85,9 @@ class TucanListenerImpl(tucanListener):
         self._add_bond(index1, index2)
 
     def enterNode_property(self, ctx: tucanParser.Node_propertyContext):
-        node_index = int(ctx.parentCtx.node_index().getText())
+        node_index = _to_int(ctx.parentCtx.node_index().getText())
         key = ctx.node_property_key().getText()
-        value = int(ctx.node_property_value().getText())
+        value = _to_int(ctx.node_property_value().getText())
         self._add_node_attribute(node_index, key, value)
 
     def _parse_sum_formula(self, formula_ctx):
@@ -98,7 +98,7 @@ class TucanListenerImpl(tucanListener):
             symbol = symbol_count_tuple.getChild(0).getText()
             count = 1
             if symbol_count_tuple.getChildCount() > 1:
-                count = int(symbol_count_tuple.getChild(1).getText())
+                count = _to_int(symbol_count_tuple.getChild(1).getText())
             self._add_atoms(symbol, count)
 
     def _add_atoms(self, element, count):
@@ -186,3 +186,11 @@ class ParserErrorListener(RaisingErrorListener):
 
 class TucanParserException(Exception):
     pass
+
+
+def _to_int(number: str) -> int:
+    try:
+        return int(number)
+    except ValueError as e:
+        # e.g. more digits than the interpreter's limit for int conversion
+        raise TucanParserException(f'Invalid number "{number[:20]}...": {e}') from e
